@@ -542,7 +542,7 @@ def workbook_stream(wb, opts=None, rng=None):
 # ------------------------------------------------------------------ compound file
 FREE, EOC, FATSECT = 0xFFFFFFFF, 0xFFFFFFFE, 0xFFFFFFFD
 
-def cfb_wrap(streams, version=3, rng=None, shuffle=False, extra_free=0):
+def cfb_wrap(streams, version=3, rng=None, shuffle=False, extra_free=0, links=True):
     """streams: [(name, bytes)] at the root.  Streams below 4096 bytes go to the mini stream.
     shuffle (needs rng) permutes sector assignment; chains stay valid."""
     ss = 512 if version == 3 else 4096
@@ -609,9 +609,11 @@ def cfb_wrap(streams, version=3, rng=None, shuffle=False, extra_free=0):
     ents = []
     for i, (n, b) in enumerate(streams):
         start = chains["s:" + n][0] if len(b) >= 4096 else mini_start[n]
-        ents.append(dirent(n, 2, start, len(b), right=(i + 2 if i + 1 < len(streams) else FREE)))
+        ents.append(dirent(n, 2, start, len(b), right=(i + 2 if links and i + 1 < len(streams) else FREE)))
+    # links=False: no hierarchy written at all (the reader then finds entries by name alone): used
+    # when the streams of a storage tree (a VBA project) are put side by side at the root
     root = dirent("Root Entry", 5, chains["mini"][0] if nmini else EOC, nmini * 64,
-                  child=(1 if streams else FREE))
+                  child=(1 if streams and links else FREE))
     d = (root + b"".join(ents)).ljust(dir_secs * ss, b"\0")
     for i, sid in enumerate(chains["dir"]):
         sectors[sid] = d[i * ss:(i + 1) * ss]
